@@ -287,8 +287,11 @@ def expected : List (String × List Entry) := [
     ⟨"index:encodedKey[0]", .site "Resolve:encodedKey[0]"⟩,
     ⟨"slice:encodedKey[1:]", .total "encodedKey has at least one character here"⟩,
     ⟨"discard:io.ReadAll(reader)", .total "reading from a bytes.Reader does not fail"⟩,
+    ⟨"lencheck:keyLength != 32", .total "exact length of X25519 / Ed25519 keys (model: DidKey.codecCheck keyLength != 32); a longer key would be handed to crypto/ed25519, which panics on it"⟩,
+    ⟨"lencheck:keyLength != 32", .total "exact length of X25519 / Ed25519 keys (model: DidKey.codecCheck keyLength != 32); a longer key would be handed to crypto/ed25519, which panics on it"⟩,
     ⟨"discard:unmarshalEC(elliptic.P521(), -1, mcBytes)", .total "expectedLen -1: unmarshalEC cannot return an error; invalid points give nil coordinates, which NewVerificationMethod rejects (data vmOk)"⟩]),
   ("vdr/didkey/resolver.go:unmarshalEC", [
+    ⟨"lencheck:expectedLen != -1", .total "P-521 is decoded without a length check"⟩,
     ⟨"lencheck:len(pubKeyBytes) != expectedLen", .total "length error (model: keyLength tests)"⟩]),
   ("vdr/didjwk/resolver.go:Resolver.Resolve", [
     ⟨"nilcheck:rawPrivateKey != nil", .sampled "didjwk.Resolve"⟩,
